@@ -399,9 +399,12 @@ def set_prev_node(function):
         :return: NamedTuple with at least ("line_no_start", "line_no_end", "value") attributes
         :rtype: ```NamedTuple```
         """
-        state["prev_node"] = function(statement, state)
-        state["parsed"].append(state["prev_node"])
-        return state["prev_node"]
+        node = function(statement, state)
+        if not isinstance(node, CommentStatement):
+            # A comment between `def f():` and its docstring doesn't stop the latter being a docstring
+            state["prev_node"] = node
+        state["parsed"].append(node)
+        return node
 
     return wrapper
 
